@@ -2,9 +2,14 @@
 package filters
 
 import (
+	"bytes"
+	"context"
 	"fmt"
+	"sort"
 	"testing"
 
+	"github.com/cockroachdb/pebble/objstorage"
+	"github.com/cockroachdb/pebble/sstable"
 	"github.com/cockroachdb/pebble/internal/base"
 	"github.com/cockroachdb/pebble/sstable/tablefilters"
 	"github.com/cockroachdb/pebble/sstable/tablefilters/binaryfuse"
@@ -13,12 +18,24 @@ import (
 	"pgregory.net/rapid"
 )
 
-// Plan is a key set plus a filter policy.
+// Plan is a filter policy plus a compact description of a key set (the keys are
+// a pure function of N, Shape, Base and Seed, so that sets of tens of
+// thousands of keys - filters are built block-wise from 8192 / 16384 key hashes
+// - do not have to be spelled out in the plan).
 type Plan struct {
-	Policy string   `json:"policy"` // name understood by policyOf
-	Bits   int      `json:"bits"`
-	Max    uint64   `json:"max,omitempty"`
-	Keys   [][]byte `json:"keys"`
+	Policy string `json:"policy"` // name understood by policyOf
+	Bits   int    `json:"bits"`
+	Max    uint64 `json:"max,omitempty"`
+	N      int    `json:"n"`
+	Shape  int    `json:"shape"`
+	Base   []byte `json:"base,omitempty"`
+	Seed   uint64 `json:"seed"`
+	// Dup repeats every Dup-th key immediately (consecutive duplicates are
+	// de-duplicated by the hash collectors); 0 = none.
+	Dup int `json:"dup,omitempty"`
+	// Table: additionally build an sstable with this filter policy and look every
+	// key up with SeekPrefixGE through the table's filter.
+	Table bool `json:"table,omitempty"`
 }
 
 func policyOf(p Plan) base.TableFilterPolicy {
@@ -33,24 +50,62 @@ func policyOf(p Plan) base.TableFilterPolicy {
 	panic("bad policy")
 }
 
-func genKeys(t *rapid.T) [][]byte {
-	n := rapid.OneOf(rapid.IntRange(0, 8), rapid.IntRange(9, 300), rapid.IntRange(301, 5000)).Draw(t, "n")
-	shape := rapid.IntRange(0, 3).Draw(t, "shape")
-	keys := make([][]byte, 0, n)
-	base := rapid.SliceOfN(rapid.Byte(), 0, 12).Draw(t, "base")
-	for i := 0; i < n; i++ {
+// sizes around which filter construction changes behaviour: powers of two and
+// multiples of the hash-collector block lengths, each -1/0/+1.
+func genN(t *rapid.T) int {
+	switch rapid.IntRange(0, 9).Draw(t, "nclass") {
+	case 0:
+		return rapid.IntRange(0, 8).Draw(t, "n")
+	case 1, 2, 3:
+		return rapid.IntRange(9, 300).Draw(t, "n")
+	case 4, 5, 6:
+		return rapid.IntRange(301, 5000).Draw(t, "n")
+	case 7:
+		k := rapid.IntRange(3, 15).Draw(t, "pow")
+		return (1 << k) + rapid.IntRange(-1, 1).Draw(t, "d")
+	default:
+		b := rapid.SampledFrom([]int{64, 512, 4096, 8192, 16384}).Draw(t, "blk")
+		m := rapid.IntRange(1, 4).Draw(t, "mult")
+		n := b*m + rapid.IntRange(-1, 1).Draw(t, "d")
+		if n > 40000 {
+			n = b + rapid.IntRange(-1, 1).Draw(t, "d2")
+		}
+		return n
+	}
+}
+
+// keysOf materializes the key set of a plan.
+func keysOf(p Plan) [][]byte {
+	keys := make([][]byte, 0, p.N+p.N/max(1, p.Dup)+1)
+	x := p.Seed*2862933555777941757 + 3037000493
+	next := func() uint64 {
+		x ^= x << 13
+		x ^= x >> 7
+		x ^= x << 17
+		return x
+	}
+	for i := 0; i < p.N; i++ {
 		var k []byte
-		switch shape {
-		case 0: // shared prefix + counter (keys differing in the last bits)
-			k = append(append([]byte{}, base...), byte(i>>16), byte(i>>8), byte(i))
-		case 1: // random short keys: many duplicates
-			k = rapid.SliceOfN(rapid.ByteRange('a', 'd'), 0, 3).Draw(t, "k")
-		case 2: // random keys
-			k = rapid.SliceOfN(rapid.Byte(), 0, 24).Draw(t, "k")
-		default: // counter then shared suffix
-			k = append([]byte{byte(i), byte(i >> 8)}, base...)
+		switch p.Shape {
+		case 0: // shared prefix + counter (keys differing in the last bits): all distinct
+			k = append(append([]byte{}, p.Base...), byte(i>>16), byte(i>>8), byte(i))
+		case 1: // short keys over a tiny alphabet: many duplicates
+			l := int(next() % 4)
+			for j := 0; j < l; j++ {
+				k = append(k, byte('a'+next()%4))
+			}
+		case 2: // pseudo-random keys of 0-24 bytes
+			l := int(next() % 25)
+			for j := 0; j < l; j++ {
+				k = append(k, byte(next()))
+			}
+		default: // counter then shared suffix: all distinct
+			k = append([]byte{byte(i), byte(i >> 8), byte(i >> 16)}, p.Base...)
 		}
 		keys = append(keys, k)
+		if p.Dup > 0 && i%p.Dup == 0 {
+			keys = append(keys, k)
+		}
 	}
 	return keys
 }
@@ -66,55 +121,130 @@ func gen(t *rapid.T) Plan {
 	case "fuse":
 		p.Bits = rapid.SampledFrom(binaryfuse.SupportedBitsPerFingerprint).Draw(t, "bits")
 	}
-	p.Keys = genKeys(t)
+	p.N = genN(t)
+	p.Shape = rapid.SampledFrom([]int{0, 0, 1, 2, 3}).Draw(t, "shape")
+	p.Base = rapid.SliceOfN(rapid.Byte(), 0, 12).Draw(t, "base")
+	p.Seed = rapid.Uint64().Draw(t, "seed")
+	if rapid.IntRange(0, 3).Draw(t, "dupon") == 0 {
+		p.Dup = rapid.IntRange(1, 7).Draw(t, "dup")
+	}
+	p.Table = p.N <= 20000 && rapid.IntRange(0, 4).Draw(t, "table") == 0
 	return p
+}
+
+// tableLookups builds an sstable over the (sorted, distinct) keys with the
+// plan's filter policy and looks every key up through the filter.
+func tableLookups(p Plan, keys [][]byte) (int, error) {
+	sorted := make([][]byte, len(keys))
+	copy(sorted, keys)
+	sort.Slice(sorted, func(i, j int) bool { return bytes.Compare(sorted[i], sorted[j]) < 0 })
+	obj := &objstorage.MemObj{}
+	w := sstable.NewWriter(obj, sstable.WriterOptions{FilterPolicy: policyOf(p), BlockSize: 512, TableFormat: sstable.TableFormatMax})
+	var prev []byte
+	n := 0
+	for i, k := range sorted {
+		if i > 0 && bytes.Equal(prev, k) {
+			continue
+		}
+		if err := w.Set(k, []byte("v")); err != nil {
+			return 0, fmt.Errorf("table writer: %v", err)
+		}
+		prev = k
+		n++
+	}
+	if err := w.Close(); err != nil {
+		return 0, fmt.Errorf("table writer close: %v", err)
+	}
+	r, err := sstable.NewReader(context.Background(), obj, sstable.ReaderOptions{FilterDecoders: tablefilters.Decoders})
+	if err != nil {
+		return 0, fmt.Errorf("NewReader: %v", err)
+	}
+	defer r.Close()
+	it, err := r.NewPointIter(context.Background(), sstable.IterOptions{FilterBlockSizeLimit: sstable.AlwaysUseFilterBlock,
+		Env: sstable.NoReadEnv, ReaderProvider: sstable.MakeTrivialReaderProvider(r), BlobContext: sstable.AssertNoBlobHandles})
+	if err != nil {
+		return 0, fmt.Errorf("NewPointIter: %v", err)
+	}
+	defer it.Close()
+	prev = nil
+	for i, k := range sorted {
+		if i > 0 && bytes.Equal(prev, k) {
+			continue
+		}
+		prev = k
+		kv := it.SeekPrefixGE(k, k, base.SeekGEFlagsNone)
+		if kv == nil || !bytes.Equal(kv.K.UserKey, k) {
+			return n, fmt.Errorf("table level: SeekPrefixGE(%x) through the %s filter does not find the key that is in the table (n=%d distinct keys; iterator error %v)", k, p.Policy, n, it.Error())
+		}
+	}
+	return n, nil
 }
 
 func exec(p Plan) (evid.Outcome, error) {
 	var out evid.Outcome
+	keys := keysOf(p)
 	w := policyOf(p).NewWriter()
 	distinct := map[string]struct{}{}
-	for _, k := range p.Keys {
+	for _, k := range keys {
 		w.AddKey(k)
 		distinct[string(k)] = struct{}{}
 	}
 	data, family, ok := w.Finish()
 	out.Labels = append(out.Labels, "policy="+p.Policy)
-	if !ok {
-		// No filter is written: lookups fall through to the table; nothing to check.
-		out.Labels = append(out.Labels, "finish-not-ok")
-		return out, nil
+	nd := len(distinct)
+	switch {
+	case nd >= 16384:
+		out.Labels = append(out.Labels, "distinct>=16384")
+	case nd >= 8192:
+		out.Labels = append(out.Labels, "distinct>=8192")
+	case nd >= 1000:
+		out.Labels = append(out.Labels, "distinct>=1000")
 	}
-	var dec base.TableFilterDecoder
-	for _, d := range tablefilters.Decoders {
-		if d.Family() == family {
-			dec = d
-		}
+	if nd > 0 && (nd%8192 == 0 || nd%4096 == 0) {
+		out.Labels = append(out.Labels, "distinct-multiple-of-4096")
 	}
-	if dec == nil {
-		return out, fmt.Errorf("no decoder for family %q", family)
-	}
-	for _, k := range p.Keys {
-		if !dec.MayContain(data, k) {
-			return out, fmt.Errorf("false negative: policy=%s bits=%d n=%d key=%x", p.Policy, p.Bits, len(p.Keys), k)
-		}
-	}
-	out.NonTrivial = len(distinct) >= 100
-	if len(distinct) < len(p.Keys) {
+	if nd < len(keys) {
 		out.Labels = append(out.Labels, "has-duplicates")
 	}
+	if !ok {
+		// No filter is written: lookups fall through to the table; nothing to check
+		// at the filter level.
+		out.Labels = append(out.Labels, "finish-not-ok")
+	} else {
+		var dec base.TableFilterDecoder
+		for _, d := range tablefilters.Decoders {
+			if d.Family() == family {
+				dec = d
+			}
+		}
+		if dec == nil {
+			return out, fmt.Errorf("no decoder for family %q", family)
+		}
+		for _, k := range keys {
+			if !dec.MayContain(data, k) {
+				return out, fmt.Errorf("false negative: policy=%s bits=%d keys added=%d distinct=%d key=%x", p.Policy, p.Bits, len(keys), nd, k)
+			}
+		}
+	}
+	if p.Table {
+		out.Labels = append(out.Labels, "table-level")
+		if _, err := tableLookups(p, keys); err != nil {
+			return out, err
+		}
+	}
+	out.NonTrivial = nd >= 100 && (ok || p.Table)
 	return out, nil
 }
 
 func TestC26(t *testing.T) {
 	evid.Run(t, evid.Spec[Plan]{
 		ID: "C26", Level: "exploration",
-		Rule: "rapid draws (policy, parameters, key set of 0-5000 keys in four shapes incl. duplicates and shared prefixes); " +
-			"non-trivial = Finish produced a filter over >=100 distinct keys; distinct = hash of the plan JSON",
+		Rule: "rapid draws (policy, parameters, key-set description: size 0-40000 biased to powers of two and multiples of 64/512/4096/8192/16384 (-1/0/+1), four shapes incl. consecutive and scattered duplicates and shared prefixes); every added key must be reported by MayContain; one case in five additionally builds an sstable with the policy and finds every key with SeekPrefixGE through the filter block; " +
+			"non-trivial = a filter (or table) over >=100 distinct keys was checked; distinct = hash of the plan JSON",
 		Assumptions: []string{"the decoder for the family returned by Finish is the one registered in tablefilters.Decoders"},
 		Gen:         gen, Exec: exec, Quick: 400, Thorough: 5000,
 		Sample: func(p Plan) any {
-			return map[string]any{"policy": p.Policy, "bits": p.Bits, "max": p.Max, "nkeys": len(p.Keys), "first_keys": p.Keys[:min(3, len(p.Keys))]}
+			return p
 		},
 	})
 }
